@@ -154,3 +154,10 @@ Fixpoint nodupb (l : list string) : bool :=
   | [] => true
   | x :: r => negb (str_mem x r) && nodupb r
   end.
+
+Fixpoint list_eqb {A} (l1 l2 : list A) (eqb : A -> A -> bool) : bool :=
+  match l1, l2 with
+  | [], [] => true
+  | x :: r1, y :: r2 => eqb x y && list_eqb r1 r2 eqb
+  | _, _ => false
+  end.
